@@ -180,4 +180,552 @@ theorem pipeline_backend (sem : Sem V) (cmd : OptCommand) (row : OptRow) (inp : 
           simp
           cases hD : defaultValue sem row c2 <;> simp
 
+/-! ## the merged file mapping -/
+
+theorem lookup_append (a b : List (Nat × V)) (i : Nat) :
+    lookup (a ++ b) i = (lookup a i).or (lookup b i) := by
+  induction a with
+  | nil => simp [lookup]
+  | cons kv rest ih =>
+    obtain ⟨k, v⟩ := kv
+    simp only [List.cons_append, lookup]
+    split <;> simp [ih]
+
+theorem lookup_filter (p : List (Nat × V)) (d : List (Nat × V)) (i : Nat) :
+    lookup (d.filter (fun kv => (lookup p kv.1).isNone)) i = if (lookup p i).isNone then lookup d i else none := by
+  induction d with
+  | nil => simp [lookup]
+  | cons kv rest ih =>
+    obtain ⟨k, v⟩ := kv
+    simp only [List.filter_cons]
+    by_cases hk : (k == i) = true
+    · have : k = i := by simpa using hk
+      subst this
+      cases hp : (lookup p k).isNone <;> simp [lookup, hp, ih]
+    · cases hp : (lookup p k).isNone <;> simp [lookup, hk, ih]
+
+/-- `read_config`: a key of the profile hides the same key of the default section -/
+theorem lookup_overlay (d p : List (Nat × V)) (i : Nat) :
+    lookup (overlay d p) i = (lookup p i).or (lookup d i) := by
+  unfold overlay
+  rw [lookup_append, lookup_filter]
+  cases lookup p i <;> simp
+
+theorem lookup_toList (o : Option (Nat × V)) (i : Nat) :
+    lookup o.toList i = match o with
+      | some (k, v) => if k == i then some v else none
+      | none => none := by
+  cases o with
+  | none => simp [lookup]
+  | some kv => obtain ⟨k, v⟩ := kv; simp [lookup]
+
+theorem presentKeys_length (vars : List OptFileVar) (merged : List (Nat × V)) (i : Nat) :
+    (presentKeys vars merged i).length ≤ vars.length := by
+  induction vars generalizing i with
+  | nil => simp [presentKeys]
+  | cons fv rest ih =>
+    simp only [presentKeys]
+    split
+    · simp; exact ih (i + 1)
+    · have := ih (i + 1); simp; omega
+
+theorem fileMutex_false_of_short (row : OptRow) (merged : List (Nat × V)) (h : row.file.length ≤ 1) :
+    fileMutexViolated row merged = false := by
+  unfold fileMutexViolated
+  rw [List.any_eq_false]
+  intro g _
+  have h1 := presentKeys_length row.file merged 0
+  have h2 := List.length_filter_le (fun k => decide (k ∈ g)) (presentKeys row.file merged 0)
+  simp
+  omega
+
+/-! ## the file stage when the merged mapping holds at most one key of the option -/
+
+/-- what `apply_known` does with one key that is present -/
+def varStep (sem : Sem V) (fv : OptFileVar) (raw cfg : V) : Except Err V :=
+  match fv.kind with
+  | .plain =>
+    match sem.co fv.ty raw with
+    | none => .error .configValue
+    | some x => .ok x
+  | .nullIfTrue =>
+    match sem.co fv.ty raw with
+    | none => .error .configValue
+    | some b => .ok (if sem.truthy b then sem.noneV else cfg)
+  | .other => .error .model
+
+theorem applyFileVars_none (sem : Sem V) (vars : List OptFileVar) (merged : List (Nat × V)) (base : Nat) (cfg : V)
+    (h : ∀ i, base ≤ i → lookup merged i = none) : applyFileVars sem vars merged base cfg = .ok cfg := by
+  induction vars generalizing base with
+  | nil => simp [applyFileVars]
+  | cons fv rest ih =>
+    simp only [applyFileVars, h base (Nat.le_refl _)]
+    exact ih (base + 1) (fun i hi => h i (by omega))
+
+theorem presentKeys_none (vars : List OptFileVar) (merged : List (Nat × V)) (base : Nat)
+    (h : ∀ i, base ≤ i → lookup merged i = none) : presentKeys vars merged base = [] := by
+  induction vars generalizing base with
+  | nil => simp [presentKeys]
+  | cons fv rest ih =>
+    simp only [presentKeys, h base (Nat.le_refl _)]
+    simpa using ih (base + 1) (fun i hi => h i (by omega))
+
+/-- a merged mapping that contains exactly one key of this option -/
+def OnlyKey (merged : List (Nat × V)) (k : Nat) (r : V) : Prop :=
+  ∀ i, lookup merged i = if k == i then some r else none
+
+theorem applyFileVars_single (sem : Sem V) (vars : List OptFileVar) (merged : List (Nat × V)) (k : Nat) (r : V)
+    (h : OnlyKey merged k r) (base : Nat) (cfg : V) (hb : base ≤ k) :
+    applyFileVars sem vars merged base cfg =
+      match vars[k - base]? with
+      | none => .ok cfg
+      | some fv => varStep sem fv r cfg := by
+  induction vars generalizing base with
+  | nil => simp [applyFileVars]
+  | cons fv rest ih =>
+    by_cases hk : base = k
+    · subst hk
+      have hl : lookup merged base = some r := by simpa using h base
+      have hrest : ∀ c, applyFileVars sem rest merged (base + 1) c = .ok c := fun c =>
+        applyFileVars_none sem rest merged (base + 1) c (fun i hi => by
+          have := h i
+          have hne : (base == i) = false := by simp; omega
+          simpa [hne] using this)
+      simp only [applyFileVars, hl, Nat.sub_self, List.getElem?_cons_zero, varStep]
+      cases fv.kind <;> simp
+      · cases sem.co fv.ty r <;> simp [hrest]
+      · cases sem.co fv.ty r <;> simp [hrest]
+    · have hl : lookup merged base = none := by
+        have := h base
+        have hne : (k == base) = false := by simp; omega
+        simpa [hne] using this
+      have hlt : base + 1 ≤ k := by omega
+      have : k - base = (k - (base + 1)) + 1 := by omega
+      simp only [applyFileVars, hl, this, List.getElem?_cons_succ]
+      exact ih (base + 1) hlt
+
+theorem presentKeys_single (vars : List OptFileVar) (merged : List (Nat × V)) (k : Nat) (r : V)
+    (h : OnlyKey merged k r) (base : Nat) : (presentKeys vars merged base).length ≤ 1 := by
+  induction vars generalizing base with
+  | nil => simp [presentKeys]
+  | cons fv rest ih =>
+    simp only [presentKeys]
+    by_cases hk : k = base
+    · subst hk
+      have hrest : presentKeys rest merged (k + 1) = [] :=
+        presentKeys_none rest merged (k + 1) (fun i hi => by
+          have := h i
+          have hne : (k == i) = false := by simp; omega
+          simpa [hne] using this)
+      split <;> simp [hrest]
+    · have hl : lookup merged base = none := by
+        have := h base
+        have hne : (k == base) = false := by simp; omega
+        simpa [hne] using this
+      simp [hl]
+      exact ih (base + 1)
+
+
+/-! ## hypotheses of the precedence theorems -/
+
+/-- assumptions on the leaf functions (validated by the harness on every generated raw value) -/
+structure SemOK (sem : Sem V) : Prop where
+  nonStr : ∀ ty v w, nonStrTy ty = true → sem.co ty v = some w → sem.isStr w = false
+  noneNotStr : sem.isStr sem.noneV = false
+
+/-- profile and default section name the option by the same key (when both set it) -/
+def sameKey (s : Simple V) : Bool :=
+  match s.prof, s.dflt with
+  | some (i, _), some (j, _) => i == j
+  | _, _ => true
+
+/-- a `no-cache`-like key, where present, is true -/
+def flagOk (sem : Sem V) (row : OptRow) (kv : Option (Nat × V)) : Bool :=
+  match kv with
+  | none => true
+  | some (i, raw) =>
+    match row.file[i]? with
+    | some fv => fv.kind != .nullIfTrue || (match sem.co fv.ty raw with
+        | some b => sem.truthy b
+        | none => false)
+    | none => true
+
+def flagsTruthy (sem : Sem V) (row : OptRow) (s : Simple V) : Bool := flagOk sem row s.prof && flagOk sem row s.dflt
+
+theorem fileMutex_false_of_present_short (row : OptRow) (merged : List (Nat × V))
+    (h : (presentKeys row.file merged 0).length ≤ 1) : fileMutexViolated row merged = false := by
+  unfold fileMutexViolated
+  rw [List.any_eq_false]
+  intro g _
+  have h2 := List.length_filter_le (fun k => decide (k ∈ g)) (presentKeys row.file merged 0)
+  simp
+  omega
+
+
+
+theorem merged_simple_some (s : Simple V) (hsame : sameKey s = true) (k : Nat) (r : V)
+    (hw : s.prof.or s.dflt = some (k, r)) : OnlyKey (overlay s.toInputs.dflt s.toInputs.prof) k r := by
+  intro i
+  obtain ⟨c, e, p, d, b⟩ := s
+  simp only [Simple.toInputs, lookup_overlay, lookup_toList]
+  rcases p with _ | ⟨pi, pr⟩ <;> rcases d with _ | ⟨di, dr⟩ <;> simp at hw
+  · obtain ⟨rfl, rfl⟩ := hw; simp
+  · obtain ⟨rfl, rfl⟩ := hw; simp
+  · obtain ⟨rfl, rfl⟩ := hw
+    have : pi = di := by simpa [sameKey] using hsame
+    subst this
+    by_cases hki : pi = i <;> simp [hki]
+
+theorem merged_simple_none (s : Simple V) (hw : s.prof.or s.dflt = none) (i : Nat) :
+    lookup (overlay s.toInputs.dflt s.toInputs.prof) i = none := by
+  obtain ⟨c, e, p, d, b⟩ := s
+  rcases p with _ | ⟨pi, pr⟩ <;> rcases d with _ | ⟨di, dr⟩ <;> simp at hw
+  simp [Simple.toInputs, lookup_overlay, lookup]
+
+/-- a typed (non-string) TOML value is supplied only for options that are not backend-specific (excludes D14) -/
+def rawStrOk (sem : Sem V) (row : OptRow) (kv : Option (Nat × V)) : Bool :=
+  match kv with
+  | none => true
+  | some (_, r) => !isBackend row || sem.isStr r
+
+def fileRawsStr (sem : Sem V) (row : OptRow) (s : Simple V) : Bool := rawStrOk sem row s.prof && rawStrOk sem row s.dflt
+
+theorem fileRawsStr_of_nonBackend (sem : Sem V) (row : OptRow) (s : Simple V) (hnb : isBackend row = false) :
+    fileRawsStr sem row s = true := by
+  unfold fileRawsStr rawStrOk
+  cases s.prof <;> cases s.dflt <;> simp [hnb]
+
+theorem fileValue_eq_varStep (sem : Sem V) (row : OptRow) (k : Nat) (r : V) (fv : OptFileVar) (lower : Except Err V) (cfg : V)
+    (hnb : (isBackend row && !sem.isStr r) = false) (hfv : row.file[k]? = some fv)
+    (htr : flagOk sem row (some (k, r)) = true) :
+    fileValue sem row (k, r) lower = varStep sem fv r cfg := by
+  simp only [fileValue, hfv, varStep, hnb]
+  cases hkind : fv.kind <;> simp
+  · cases sem.co fv.ty r <;> simp [orErr]
+  · simp [flagOk, hfv, hkind] at htr
+    cases hco : sem.co fv.ty r <;> simp [hco] at htr ⊢
+    simp [htr]
+
+/-- the file stage on simple inputs: no exclusivity error, and the value is the one the specification names -/
+theorem file_stage (sem : Sem V) (row : OptRow) (s : Simple V) (hstr : fileRawsStr sem row s = true)
+    (hp : fileOk sem row s.prof = true) (hd : fileOk sem row s.dflt = true)
+    (hsame : sameKey s = true) (htr : flagsTruthy sem row s = true) :
+    fileMutexViolated row (overlay s.toInputs.dflt s.toInputs.prof) = false ∧
+    applyFileVars sem row.file (overlay s.toInputs.dflt s.toInputs.prof) 0 s.builtin = specBelowEnv sem row s := by
+  cases hw : s.prof.or s.dflt with
+  | none =>
+    have hn := merged_simple_none s hw
+    have hpn : s.prof = none := by cases hp' : s.prof <;> simp [hp'] at hw ⊢
+    have hdn : s.dflt = none := by cases hd' : s.dflt <;> simp [hpn, hd'] at hw ⊢
+    refine ⟨fileMutex_false_of_present_short row _ (by rw [presentKeys_none _ _ 0 (fun i _ => hn i)]; simp), ?_⟩
+    rw [applyFileVars_none sem _ _ 0 _ (fun i _ => hn i)]
+    simp [specBelowEnv, specBelowProfile, hpn, hdn]
+  | some kr =>
+    obtain ⟨k, r⟩ := kr
+    have ho := merged_simple_some s hsame k r hw
+    refine ⟨fileMutex_false_of_present_short row _ (presentKeys_single _ _ k r ho 0), ?_⟩
+    rw [applyFileVars_single sem _ _ k r ho 0 _ (Nat.zero_le _)]
+    simp only [flagsTruthy, Bool.and_eq_true] at htr
+    cases hprof : s.prof with
+    | some kv =>
+      have : kv = (k, r) := by simpa [hprof] using hw
+      subst this
+      simp only [hprof, fileOk] at hp
+      cases hfv : row.file[k]? with
+      | none => simp [hfv] at hp
+      | some fv =>
+        simp only [specBelowEnv, hprof]
+        have hnb : (isBackend row && !sem.isStr r) = false := by
+          simp only [fileRawsStr, rawStrOk, hprof, Bool.and_eq_true] at hstr
+          cases hb1 : isBackend row <;> cases hb2 : sem.isStr r <;> simp [hb1, hb2] at hstr ⊢
+        rw [fileValue_eq_varStep sem row k r fv _ s.builtin hnb hfv (by simpa [hprof] using htr.1)]
+    | none =>
+      have hdf : s.dflt = some (k, r) := by simpa [hprof] using hw
+      simp only [hdf, fileOk] at hd
+      cases hfv : row.file[k]? with
+      | none => simp [hfv] at hd
+      | some fv =>
+        simp only [specBelowEnv, hprof, specBelowProfile, hdf]
+        have hnb : (isBackend row && !sem.isStr r) = false := by
+          simp only [fileRawsStr, rawStrOk, hprof, hdf, Bool.and_eq_true] at hstr
+          cases hb1 : isBackend row <;> cases hb2 : sem.isStr r <;> simp [hb1, hb2] at hstr ⊢
+        rw [fileValue_eq_varStep sem row k r fv _ s.builtin hnb hfv (by simpa [hdf] using htr.2)]
+
+
+theorem parseCli_one (sem : Sem V) (row : OptRow) (i : Nat) (raw : V) (acc : Option V) :
+    parseCli sem row [(i, raw)] [] acc =
+      match row.cli[i]? with
+      | none => .error .model
+      | some v => match cliValue sem v raw with
+        | .error e => .error e
+        | .ok x => .ok (some x) := by
+  cases h : row.cli[i]? with
+  | none => simp [parseCli, h]
+  | some v =>
+    cases h2 : cliValue sem v raw <;> simp [parseCli, h, h2]
+
+/-- under `valid` the file part of the specification is a value -/
+theorem specBelowEnv_ok (sem : Sem V) (row : OptRow) (s : Simple V)
+    (hp : fileOk sem row s.prof = true) (hd : fileOk sem row s.dflt = true)
+    (htr : flagsTruthy sem row s = true) : ∃ c, specBelowEnv sem row s = .ok c := by
+  have key : ∀ (kv : Nat × V) (lower : Except Err V), fileOk sem row (some kv) = true →
+      flagOk sem row (some kv) = true → ∃ c, fileValue sem row kv lower = .ok c := by
+    intro kv lower h1 h2
+    obtain ⟨k, r⟩ := kv
+    simp only [fileOk] at h1
+    cases hfv : row.file[k]? with
+    | none => simp [hfv] at h1
+    | some fv =>
+      simp only [hfv, Bool.and_eq_true, bne_iff_ne, ne_eq] at h1
+      obtain ⟨x, hx⟩ := Option.isSome_iff_exists.mp h1.2
+      simp only [fileValue, hfv]
+      cases hkind : fv.kind
+      · cases (isBackend row && !sem.isStr r) <;> simp [hx, orErr]
+      · simp [flagOk, hfv, hkind, hx] at h2
+        simp [hx, h2]
+      · exact absurd hkind h1.1
+  simp only [flagsTruthy, Bool.and_eq_true] at htr
+  unfold specBelowEnv specBelowProfile
+  cases hprof : s.prof with
+  | some kv => exact key kv _ (by simpa [hprof] using hp) (by simpa [hprof] using htr.1)
+  | none =>
+    cases hdf : s.dflt with
+    | some kv => exact key kv _ (by simpa [hdf] using hd) (by simpa [hdf] using htr.2)
+    | none => exact ⟨_, rfl⟩
+
+/-- `apply_known` + `apply_env` of a main option = the specification below the command line -/
+theorem cfgMain_eq (sem : Sem V) (row : OptRow) (s : Simple V) (hnb : isBackend row = false)
+    (hp : fileOk sem row s.prof = true) (hd : fileOk sem row s.dflt = true)
+    (hsame : sameKey s = true) (htr : flagsTruthy sem row s = true) :
+    cfgMain sem row s.toInputs = specBelowCli sem row s := by
+  obtain ⟨h1, h2⟩ := file_stage sem row s (fileRawsStr_of_nonBackend sem row s hnb) hp hd hsame htr
+  obtain ⟨c, hc⟩ := specBelowEnv_ok sem row s hp hd htr
+  unfold cfgMain specBelowCli
+  have hb : s.toInputs.builtin = s.builtin := rfl
+  have he : s.toInputs.env = s.env := rfl
+  rw [h1, hb, h2, hc, he]
+  simp only [applyEnvVar]
+  cases row.env with
+  | none => simp
+  | some nt => cases s.env <;> simp
+
+
+/-- the config value of a main option is never a `str` -/
+theorem specBelowCli_nonStr (sem : Sem V) (hsem : SemOK sem) (row : OptRow) (s : Simple V) (hnb : isBackend row = false)
+    (hfile : row.file.all (fun f => f.kind != .other && nonStrTy f.ty) = true)
+    (henv : (match row.env with | some (_, ty) => nonStrTy ty | none => true) = true)
+    (hb : sem.isStr s.builtin = false) (c : V) (hc : specBelowCli sem row s = .ok c) : sem.isStr c = false := by
+  have key : ∀ (kv : Nat × V) (lower : Except Err V), (∀ x, lower = .ok x → sem.isStr x = false) →
+      ∀ x, fileValue sem row kv lower = .ok x → sem.isStr x = false := by
+    intro kv lower hl x hx
+    obtain ⟨k, r⟩ := kv
+    simp only [fileValue] at hx
+    cases hfv : row.file[k]? with
+    | none => simp [hfv] at hx
+    | some fv =>
+      have hmem : fv ∈ row.file := List.mem_of_getElem? hfv
+      have hty : nonStrTy fv.ty = true := by
+        have := List.all_eq_true.mp hfile fv hmem
+        simp at this
+        exact this.2
+      simp only [hfv, hnb] at hx
+      cases hkind : fv.kind <;> simp only [hkind] at hx
+      · cases hco : sem.co fv.ty r <;> simp [hco, orErr] at hx
+        subst hx
+        exact hsem.nonStr _ _ _ hty hco
+      · cases hco : sem.co fv.ty r <;> simp [hco] at hx
+        split at hx
+        · simp at hx; subst hx; exact hsem.noneNotStr
+        · exact hl x hx
+      · simp at hx
+  have hprofile : ∀ x, specBelowProfile sem row s = .ok x → sem.isStr x = false := by
+    intro x hx
+    unfold specBelowProfile at hx
+    cases hdf : s.dflt with
+    | none => simp [hdf] at hx; subst hx; exact hb
+    | some kv =>
+      simp only [hdf] at hx
+      exact key kv _ (by intro y hy; simp at hy; subst hy; exact hb) x hx
+  have hbelow : ∀ x, specBelowEnv sem row s = .ok x → sem.isStr x = false := by
+    intro x hx
+    unfold specBelowEnv at hx
+    cases hpr : s.prof with
+    | none => simp only [hpr] at hx; exact hprofile x hx
+    | some kv => simp only [hpr] at hx; exact key kv _ hprofile x hx
+  unfold specBelowCli at hc
+  cases hre : row.env with
+  | none => simp only [hre] at hc; exact hbelow c hc
+  | some nt =>
+    obtain ⟨n, ty⟩ := nt
+    cases hse : s.env with
+    | none => simp only [hre, hse] at hc; exact hbelow c hc
+    | some raw =>
+      simp only [hre, hse] at hc
+      cases hco : sem.co ty raw <;> simp [hco, orErr] at hc
+      subst hc
+      simp only [hre] at henv
+      exact hsem.nonStr _ _ _ henv hco
+
+
+theorem defaultValue_nonStr (sem : Sem V) (row : OptRow) (d : V) (h : sem.isStr d = false) :
+    defaultValue sem row d = .ok d := by simp [defaultValue, h]
+
+/-- options that are not config fields have no file / environment source: the specification below the command line
+is the built-in default -/
+theorem specBelowCli_notCfg (sem : Sem V) (row : OptRow) (s : Simple V)
+    (hf : row.file.isEmpty = true) (he : row.env.isNone = true)
+    (hp : fileOk sem row s.prof = true) (hd : fileOk sem row s.dflt = true) :
+    specBelowCli sem row s = .ok s.builtin := by
+  have hfile : row.file = [] := by simpa using hf
+  have hpn : s.prof = none := by
+    cases h : s.prof with
+    | none => rfl
+    | some kv => simp [fileOk, h, hfile] at hp
+  have hdn : s.dflt = none := by
+    cases h : s.dflt with
+    | none => rfl
+    | some kv => simp [fileOk, h, hfile] at hd
+  have hen : row.env = none := by simpa using he
+  simp [specBelowCli, specBelowEnv, specBelowProfile, hpn, hdn, hen]
+
+theorem finish_none (sem : Sem V) (row : OptRow) (s : Simple V) (d a : V) (hd : sem.isStr d = false)
+    (hc : s.cli = none) : finish sem row s.toInputs d a = .ok { final := d, atLoad := a } := by
+  simp [finish, Simple.toInputs, hc, defaultValue_nonStr sem row d hd, parseCli]
+
+theorem finish_some (sem : Sem V) (row : OptRow) (s : Simple V) (d a : V) (i : Nat) (raw : V)
+    (hc : s.cli = some (i, raw)) :
+    finish sem row s.toInputs d a =
+      match row.cli[i]? with
+      | none => .error .model
+      | some v => match cliValue sem v raw with
+        | .error e => .error e
+        | .ok x => .ok { final := x, atLoad := a } := by
+  unfold finish
+  simp only [Simple.toInputs, hc, Option.toList_some, parseCli_one]
+  cases row.cli[i]? with
+  | none => simp
+  | some v => cases h : cliValue sem v raw <;> simp [h]
+
+/-- **precedence for every option that is not backend-specific** (and, second component, the value of the config
+field when the backend is selected) -/
+theorem precedence_main (sem : Sem V) (hsem : SemOK sem) (cmd : OptCommand)
+    (hc : cmd.setDefaults = true) (hp : cmd.parents = true) (row : OptRow) (hwf : wfMain row = true)
+    (s : Simple V) (hb : sem.isStr s.builtin = false) (hv : valid sem row s = true)
+    (hsame : sameKey s = true) (htr : flagsTruthy sem row s = true) :
+    pipelineFinal sem cmd row s.toInputs = spec sem row s ∧
+    (row.early = true → pipelineAtLoad sem cmd row s.toInputs = spec sem row s) := by
+  simp only [wfMain, Bool.and_eq_true, Bool.or_eq_true, beq_iff_eq, bne_iff_ne, ne_eq, Bool.not_eq_true'] at hwf
+  obtain ⟨⟨⟨⟨⟨⟨hscope, hbk⟩, hfile⟩, henv⟩, hcfg⟩, hs3⟩, hearly⟩ := hwf
+  simp only [valid, Bool.and_eq_true] at hv
+  obtain ⟨⟨⟨hvc, hve⟩, hvp⟩, hvd⟩ := hv
+  have hnb : isBackend row = false := by
+    simp only [isBackend, beq_eq_false_iff_ne, ne_eq]
+    rcases hscope with (h | h) | h <;> omega
+  have hcm := cfgMain_eq sem row s hnb hvp hvd hsame htr
+  obtain ⟨c0, hc0⟩ := specBelowEnv_ok sem row s hvp hvd htr
+  -- the value below the command line
+  have hbelow : ∃ c, specBelowCli sem row s = .ok c := by
+    unfold specBelowCli
+    cases hre : row.env with
+    | none => exact ⟨c0, by simpa using hc0⟩
+    | some nt =>
+      obtain ⟨n, ty⟩ := nt
+      cases hse : s.env with
+      | none => exact ⟨c0, by simpa using hc0⟩
+      | some raw =>
+        simp only [envOk, hre, hse] at hve
+        obtain ⟨x, hx⟩ := Option.isSome_iff_exists.mp hve
+        exact ⟨x, by simp [hx, orErr]⟩
+  obtain ⟨c, hcv⟩ := hbelow
+  have hns : sem.isStr c = false :=
+    specBelowCli_nonStr sem hsem row s hnb (by
+      rw [List.all_eq_true] at hfile ⊢
+      intro f hf
+      have := hfile f hf
+      simpa using this) henv hb c hcv
+  have hbi : s.toInputs.builtin = s.builtin := rfl
+  -- the default handed to the second parse is `c` in every case
+  have hdflt : (if row.inCfg then c else s.builtin) = c := by
+    cases hic : row.inCfg with
+    | true => simp
+    | false =>
+      simp only [hic] at hcfg
+      have hcfg' : row.file.isEmpty = true ∧ row.env.isNone = true := by
+        rcases hcfg with h | h
+        · exact absurd h (by simp)
+        · exact h
+      have := specBelowCli_notCfg sem row s hcfg'.1 hcfg'.2 hvp hvd
+      rw [hcv] at this
+      simp at this
+      simp [this]
+  -- whatever the scope, with `c` as the default of the second parse
+  have hfin : ∀ a, pipeline sem cmd row s.toInputs = finish sem row s.toInputs c a →
+      pipelineFinal sem cmd row s.toInputs = spec sem row s := by
+    intro a hpl
+    unfold pipelineFinal spec
+    rw [hpl]
+    cases hcl : s.cli with
+    | none => simp [finish_none sem row s c a hns hcl, hcv]
+    | some ir =>
+      obtain ⟨i, raw⟩ := ir
+      rw [finish_some sem row s c a i raw hcl]
+      cases hv' : row.cli[i]? with
+      | none => simp [hv']
+      | some v => cases h : cliValue sem v raw <;> simp [hv', h]
+  rcases hscope with (h0 | h1) | h3
+  · -- initial parser
+    have hpl := pipeline_initial sem cmd row s.toInputs hc hp h0
+    rw [hcm, hcv] at hpl
+    simp only [hbi] at hpl
+    cases hcl : s.cli with
+    | none =>
+      have hfirst : parseCli sem row s.toInputs.cli [] none = .ok none := by
+        simp [Simple.toInputs, hcl, parseCli]
+      rw [hfirst] at hpl
+      simp only [Option.getD_none, ite_self, hdflt] at hpl
+      refine ⟨hfin c hpl, fun _ => ?_⟩
+      unfold pipelineAtLoad spec
+      rw [hpl, finish_none sem row s c c hns hcl]
+      simp [hcl, hcv]
+    | some ir =>
+      obtain ⟨i, raw⟩ := ir
+      have hcli : s.toInputs.cli = [(i, raw)] := by simp [Simple.toInputs, hcl]
+      rw [hcli, parseCli_one sem row i raw none] at hpl
+      unfold pipelineFinal pipelineAtLoad spec
+      rw [hpl]
+      simp only [hcl]
+      cases hv' : row.cli[i]? with
+      | none => simp
+      | some v =>
+        cases hx : cliValue sem v raw with
+        | error e => simp [hx]
+        | ok x =>
+          simp only [finish_some sem row s _ _ i raw hcl, hv', hx]
+          constructor
+          · trivial
+          · intro he
+            simp [he]
+  · have he : row.early = false := by
+      rcases hearly with h | h
+      · exact h
+      · omega
+    have hpl := pipeline_common sem cmd row s.toInputs hc hp h1 he
+    rw [hcm, hcv] at hpl
+    simp only [hbi, hdflt] at hpl
+    exact ⟨hfin c hpl, by simp [he]⟩
+  · have he : row.early = false := by
+      rcases hearly with h | h
+      · exact h
+      · omega
+    have hic : row.inCfg = false := by
+      rcases hs3 with h | h
+      · exact absurd h3 h
+      · exact h
+    have hpl := pipeline_cmd sem cmd row s.toInputs hc hp h3 hic he
+    simp only [hbi] at hpl
+    simp only [hic] at hdflt
+    have hdflt' : s.builtin = c := by simpa using hdflt
+    rw [hdflt'] at hpl
+    exact ⟨hfin c hpl, by simp [he]⟩
+
 end Replicat.Options
